@@ -386,6 +386,7 @@ void *qhashtbl_get(qhashtbl_t *tbl, const char *name, size_t *size, bool newmem)
         } else {
             data = malloc(obj->size);
             if (data == NULL) {
+                qhashtbl_unlock(tbl);
                 errno = ENOMEM;
                 return NULL;
             }
